@@ -12,8 +12,8 @@ import (
 
 // prodEqual returns "" when the decoded message carries exactly the start
 // line, the ordered raw headers and the body of the abstract message.
-// Header values are compared modulo surrounding white space (the decoder is
-// allowed to strip it; which characters count as blanks is C01's subject).
+// Header values are compared modulo surrounding SP/HTAB only (a CR left at the
+// end of a value, for instance, is a framing error).
 func prodEqual(exp *AMsg, got *Message) string {
 	if got == nil {
 		return "no message decoded"
@@ -52,7 +52,7 @@ func prodEqual(exp *AMsg, got *Message) string {
 			want = exp.CLOverride
 		}
 		gv := fmt.Sprintf("%v", g.value)
-		if strings.TrimSpace(gv) != strings.TrimSpace(want) {
+		if strings.Trim(gv, " \t") != strings.Trim(want, " \t") {
 			return fmt.Sprintf("header %d (%s) value %s, want %s", i, h.Name, jsonBytes([]byte(gv)), jsonBytes([]byte(want)))
 		}
 	}
